@@ -4,6 +4,8 @@ set -e
 export CARGO_NET_OFFLINE=true
 cd /verif/sim
 cargo build --offline -q --workspace
+# Second build configuration of dagsim (small constants + low-mem-usage sync limits).
+RUSTFLAGS="--cfg aranya_verif --cfg aranya_verif_knobs" cargo build --offline -q -p dagsim --features low-mem --target-dir /verif/target-knobs
 # Warm the Miri build (its own target dir) so the first C33 check does not pay for it.
 if [ -x /verif/sim/mirisim/run.sh ]; then
   VERIF_EVIDENCE_DIR=/tmp /verif/sim/mirisim/run.sh C33 --tier quick --evidence /tmp/mirisim-warmup.json >/dev/null 2>&1 || true
